@@ -128,11 +128,14 @@ func checkC08(c *chk.Ctx) {
 			fld("q", 2, cc.Kind, abs.Ann{Query: true})
 			fld("rq", 3, cc.Kind, abs.Ann{Query: true, QueryReq: true})
 			msg.Fields = append(msg.Fields, &abs.Field{Name: "rep", Num: 5, Kind: "string", Card: "rep", Rules: abs.NoRules(), Ann: abs.Ann{Query: true}},
-				&abs.Field{Name: "oq", Num: 6, Kind: "int32", Card: "opt", Rules: abs.NoRules(), Ann: abs.Ann{Query: true}})
-			sh.fields = append(sh.fields, "rep", "oq")
+				&abs.Field{Name: "oq", Num: 6, Kind: "int32", Card: "opt", Rules: abs.NoRules(), Ann: abs.Ann{Query: true}},
+				&abs.Field{Name: "rrep", Num: 7, Kind: "string", Card: "rep", Rules: abs.NoRules(), Ann: abs.Ann{Query: true, QueryReq: true}},
+				&abs.Field{Name: "ropt", Num: 8, Kind: "int32", Card: "opt", Rules: abs.NoRules(), Ann: abs.Ann{Query: true, QueryReq: true}})
+			sh.fields = append(sh.fields, "rep", "oq", "rrep", "ropt")
 			sh.pvars = []string{"p"}
 			sh.query = []map[string]any{{"field": "q", "name": "q", "required": false}, {"field": "rq", "name": "rq", "required": true},
-				{"field": "rep", "name": "rep", "required": false}, {"field": "oq", "name": "oq", "required": false}}
+				{"field": "rep", "name": "rep", "required": false}, {"field": "oq", "name": "oq", "required": false},
+				{"field": "rrep", "name": "rrep", "required": true}, {"field": "ropt", "name": "ropt", "required": true}}
 			sh.path = fmt.Sprintf("/s%d/{p}", sh.idx)
 		case "p":
 			fld("p", 1, cc.Kind, abs.Ann{})
@@ -277,6 +280,12 @@ func checkC08(c *chk.Ctx) {
 		}
 		if fd := fds.ByName("oq"); fd != nil && cc.Cls != "zero" {
 			m.Set(fd, protoreflect.ValueOfInt32(map[bool]int32{false: 7, true: 0}[cc.Cls == "max"])) // max: explicitly set to 0 (presence counts)
+		}
+		if fd := fds.ByName("rrep"); fd != nil {
+			l := m.Mutable(fd).List()
+			l.Append(protoreflect.ValueOfString("red"))
+			l.Append(protoreflect.ValueOfString("a&b=c d"))
+			m.Set(fds.ByName("ropt"), protoreflect.ValueOfInt32(map[bool]int32{false: 12, true: 0}[cc.Cls == "zero"]))
 		}
 		if fd := fds.ByName("p2"); fd != nil {
 			m.Set(fd, protoreflect.ValueOfString("second seg"))
